@@ -23,6 +23,17 @@ partial def nestToSexp : Nest String → Sexp
   | .leaf o => .atom o
   | .list l => .list (.atom "l" :: l.map nestToSexp)
 
+/-- nested list: `(l item…)` is a list, an atom a payload -/
+partial def nest? : Sexp → Option (Nest String)
+  | .atom a => some (.leaf a)
+  | .list (.atom "l" :: items) => (items.mapM nest?).map .list
+  | _ => none
+
+/-- entries whose payloads are nested lists (results of `_from_list` / `_cat_non_tensor`): `(sh <nest> (shape…))` -/
+partial def ntNestToSexp : NT (Nest String) → Sexp
+  | .shared o s => .list [.atom "sh", nestToSexp o, ofNats s]
+  | .stack ms d => .list (.atom "st" :: ofNat d :: ms.map ntNestToSexp)
+
 def optInt? : Sexp → Option (Option Int) := asOptInt?
 
 def ix? : Sexp → Option Ix
@@ -80,6 +91,15 @@ def handleC16 (cmd : String) (args : List Sexp) : Option Sexp :=
   | "c16.view", [r, .list sh] => do pure (resToSexp (viewNT (← nt? r) (← nats? sh)))
   | "c16.split", [r, n, d] => do pure (.list ((splitNT (← nt? r) (← asNat? n) (← asNat? d)).map ntToSexp))
   | "c16.chunk", [r, n, d] => do pure (.list ((chunk (← nt? r) (← asNat? n) (← asNat? d)).map ntToSexp))
+  -- (c16.fromlist fuel item…): `_from_list(datalist, ndim)`; fuel = ndim - 1, or large for `ndim=None`
+  | "c16.fromlist", (f :: items) => do
+      -- (the NonTensorStack constructor refuses members of different batch sizes: an ill-formed result is that error)
+      let u := fromListN (← asNat? f) (← items.mapM nest?)
+      pure (if wf u then tagged "ok" [ntNestToSexp u] else tagged "err" [.atom "shape"])
+  -- (c16.cat dim item…): `_cat_non_tensor(items, dim)`
+  | "c16.cat", (d :: items) => do
+      pure (ntNestToSexp (catNT (← items.mapM nt?) (← asNat? d)))
+  | "c16.todict", [r] => do pure (nestToSexp (toDictNT (← nt? r)))
   | "c16.ravel", [.list c, .list sh] => do pure (ofNat (ravel (← nats? c) (← nats? sh)))
   | _, _ => none
 
